@@ -127,6 +127,22 @@ class C19(Plugin):
         if f is None:
             return [3]
         self._last_events = ev
+        # "any walker stream": also a walker started on an element that has following siblings (the first element with
+        # a next sibling, in document order) -- the events must describe that subtree and nothing else
+        self._sub = None
+        stack = [doc]
+        while stack:
+            n = stack.pop()
+            if n.nodeType == n.ELEMENT_NODE and n.nextSibling is not None:
+                try:
+                    ev2 = self._events(html5lib.getTreeWalker("dom")(n))
+                    f2 = rebuild(ev2) if ev2 is not None else None
+                except Exception as e:          # mis-nested events make the rebuilding handler fail
+                    f2 = None
+                want2 = trees.coalesce(trees.strip_cd([trees.dom_node(n)]))
+                self._sub = [None if f2 is None else trees.enc_forest(f2), trees.enc_forest(want2)]
+                break
+            stack.extend(reversed(list(n.childNodes)))
         return [1, trees.enc_forest(f)]
 
     def oracle(self, case, out):
@@ -148,6 +164,9 @@ class C19(Plugin):
         if out[0] != 1:
             has_void_kids = "SerializeError" in repr(walk(case["src"], "dom", case["frag"]))
             return [("serialize-error-token-asserts", "")] if has_void_kids else [("not-well-nested-or-assert", repr(out))]
+        sub = getattr(self, "_sub", None)
+        if sub is not None and sub[0] != sub[1] and "SerializeError" not in repr(walk(case["src"], "dom", case["frag"])):
+            v.append(("sax-subtree-walk-differs", repr(sub)[:300]))
         want = trees.enc_forest(trees.coalesce(trees.strip_cd(case["forest"])))
         if out[1] != want:
             cls = "sax-tree-differs"
